@@ -31,6 +31,13 @@ scen.append(S("failed-load-awaiters",2,[st("Start",g=1,lo=1,hi=4),st("LoadBegin"
 scen.append(S("trim-while-loading",2,[st("Start",g=1,lo=1,hi=4),st("LoadBegin",g=1),st("Start",g=2,lo=3,hi=4),st("Trim",T=[2]),st("Start",g=3,lo=3,hi=4),st("LoadBegin",g=3),
   st("LoadEnd",g=1,ok=True),st("Post",g=1),st("LoadEnd",g=3,ok=True),st("Post",g=3),st("GetEnd",g=1),st("GetEnd",g=2),st("GetEnd",g=3),
   st("Start",g=4,lo=1,hi=4),st("GetEnd",g=4)]))
+# two loads of one chunk in flight, the older one read the storage before the invalidation; a request that
+# awaits the newer load must not be answered by the older one
+scen.append(S("old-load-answers-awaiter",2,[st("Start",g=1,lo=1,hi=2),st("LoadBegin",g=1),st("LoadEnd",g=1,ok=True),
+  st("InvBegin",i=1,T=[1]),st("InvApply",i=1),
+  st("Start",g=2,lo=1,hi=2),st("LoadBegin",g=2),st("Start",g=3,lo=1,hi=2),st("Start",g=4,lo=2,hi=2),
+  st("Post",g=1),st("GetEnd",g=3),st("GetEnd",g=4),st("GetEnd",g=1),
+  st("LoadEnd",g=2,ok=True),st("Post",g=2),st("GetEnd",g=2),st("GetEnd",g=3),st("GetEnd",g=4)]))
 # a chunk invalidated while it is being loaded stays invalidated after the load is published
 scen.append(S("invalidated-while-loading",2,[st("Start",g=1,lo=1,hi=2),st("LoadBegin",g=1),st("LoadEnd",g=1,ok=True),
   st("InvBegin",i=1,T=[1]),st("InvApply",i=1),st("Post",g=1),st("GetEnd",g=1),
